@@ -7,7 +7,9 @@ open Lean ThaiLintModel ThaiLintModel.C14
 def handle (j : Json) : Json :=
   if J.strD j "op" "" == "resolve" then
     let cwd := (J.strsD j "cwd").map String.toList
-    Json.mkObj [("resolved", J.ofStrs ((resolveSpelling cwd (J.boolD j "absolute" false) ((J.strsD j "segs").map String.toList)).map String.ofList))]
+    let links : Links := (J.arrD j "links").toList.map fun lj =>
+      ((J.strsD lj "link").map String.toList, (J.strsD lj "target").map String.toList)
+    Json.mkObj [("resolved", J.ofStrs ((resolveSpellingL links cwd (J.boolD j "absolute" false) ((J.strsD j "segs").map String.toList)).map String.ofList))]
   else
   let above := (J.strsD j "above").map String.toList
   let q := (J.strsD j "inProject").map String.toList
